@@ -429,12 +429,23 @@ func (ck *checker) labelBaseline() {
 	}
 }
 
+const propRule = "drawn role/timer tables and input script (proposals, votes, duplicates, equivocation, early next-height and overtaking messages; 1-3 heights) run uncrashed on the real driver+state machine+walstore, then killed before and after effects (quick: <=10 drawn points per case, half of them non-trivial; thorough: every point) plus orderly stops, restarted on the crash image and fed the rest of the script (delivered-but-not-durable inputs re-delivered or lost by draw); in 30% of the experiments (thorough: all) the recovering process is killed too, at a drawn effect, and recovered again; non-trivial = kill between a Flush and the broadcast/commit it covers, between OnCommit and the prune flush, while the node is proposer of its current round, or second kill during replay"
+
 func TestPropCrashRecovery(t *testing.T) {
+	crashRecovery(t, stats.Budget{Quick: 300, Thorough: 500}, false)
+}
+
+// TestRaceCrashRecovery: the same property on a binary built with -race (the driver shares its
+// timeout channel and context with timer goroutines; the harness objects are called from them).
+func TestRaceCrashRecovery(t *testing.T) {
+	crashRecovery(t, stats.Budget{Quick: 20, Thorough: 60}, true)
+}
+
+func crashRecovery(t *testing.T, budget stats.Budget, fewPoints bool) {
 	root := scratchRoot()
 	defer os.RemoveAll(root)
 	n := 0
-	stats.Check(t, stats.Budget{Quick: 400, Thorough: 200},
-		"drawn role/timer tables and input script (proposals, votes, duplicates, equivocation, early next-height and overtaking messages; 1-3 heights) run uncrashed on the real driver+state machine+walstore, then killed before and after effects (quick: <=10 drawn points per case, half of them non-trivial; thorough: every point) plus orderly stops, restarted on the crash image and fed the rest of the script; non-trivial = kill between a Flush and the broadcast/commit it covers, between OnCommit and the prune flush, or while the node is proposer of its current round",
+	stats.Check(t, budget, propRule,
 		func(rt *rapid.T, c *stats.Case) {
 			n++
 			env := genCase(rt)
@@ -466,7 +477,7 @@ func TestPropCrashRecovery(t *testing.T) {
 			ck.labelBaseline()
 			pts := classify(ck.base, len(env.inputs))
 			var chosen []point
-			if stats.Thorough() {
+			if stats.Thorough() && !fewPoints {
 				chosen = pts
 			} else {
 				var nts []int
@@ -501,7 +512,7 @@ func TestPropCrashRecovery(t *testing.T) {
 				mode := rapid.IntRange(0, 3).Draw(rt, "redelivery")
 				c.Fp("%s m%d", &p.spec, mode)
 				var second func(*rec) *crashSpec
-				if stats.Thorough() || rapid.IntRange(0, 9).Draw(rt, "second-crash") < 3 {
+				if (stats.Thorough() && !fewPoints) || rapid.IntRange(0, 9).Draw(rt, "second-crash") < 3 {
 					second = func(rc *rec) *crashSpec {
 						n := len(rc.effects)
 						if n == 0 {
